@@ -35,7 +35,8 @@ def gen_cases(ck):
                       "strength": float(ck.rng.uniform(0.4, 2.0)), "kmin": 1 if mob else 0, "kmax": int(ck.rng.choice([3, 9])),
                       "param_mode": "random", "noise": float(ck.rng.choice([0.0, 0.0, 0.02])), "fit": ["dlite", "taubinSVD"][int(ck.rng.integers(2))],
                       "kind": kind, "t_angle": float(ck.rng.uniform(0, 2 * math.pi)), "t_scale": float(10.0 ** ck.rng.uniform(-5, 3)),
-                      "t_shift": [float(ck.rng.normal() * 10.0 ** ck.rng.uniform(0, 3)), float(ck.rng.normal() * 10.0 ** ck.rng.uniform(0, 3))]})
+                      "t_shift": [float(ck.rng.normal() * 10.0 ** ck.rng.uniform(0, 3)), float(ck.rng.normal() * 10.0 ** ck.rng.uniform(0, 3))],
+                      "angle_limit": float(ck.rng.uniform(0.7, 0.95) * math.pi)})
     for i in range(4 if ck.tier == "quick" else 16):
         # axis-parallel lattices of straight two-point interfaces: tangents with exactly vanishing components in the original
         # pose, generic ones after the rotation
@@ -116,6 +117,29 @@ def run_static_case(ck, case, reqs, pending):
         flagged = d2 if d2 is not None else True     # without a closed form (noisy tissue) the sign forcing cannot be excluded
         ck.fail("the assembled coefficient pairs rotate / reflect with the tissue", f"max deviation {worst:.3g} at {worst_key} (tolerance {ctol:.3g})",
                 case, signature=SIG_D2 if flagged and worst < 0.2 else None)
+    # the junctions flagged by a finite angle limit are decided from directions only: the unknowns that remain must not depend on the
+    # pose or the length unit
+    lim = case.get("angle_limit")
+    if lim is not None:
+        def used_under(ph_):
+            out = []
+            for dl in (-1e-6, 0.0, 1e-6):
+                impl.quiet(ph_.forsys.build_force_matrix, when=0, circle_fit_method=fit, angle_limit=lim + dl)
+                out.append(sorted(tuple(sorted(ph_.ridge_of([int(x) for x in e]) or ())) for e in ph_.forsys.force_matrices[0].big_edges_to_use))
+            return out[1], out[0] == out[1] == out[2]
+        ua, sa = used_under(pa)
+        ub, sb = used_under(pb)
+        if sa and sb:
+            if ua != ub:
+                ck.fail("the static tension of every physical interface is unchanged (the interfaces excluded by a finite angle limit are the same)",
+                        f"angle_limit {lim:.4f}: {len(ua)} unknowns in the original pose, {len(ub)} after the transformation", case,
+                        # the per-component sign forcing (finding D2) moves tangents by up to 0.09 rad when the tissue is rotated or
+                        # reflected (never under translation or rescaling); on noisy tissues it cannot be excluded
+                        signature=SIG_D2 if (case["kind"] in ("rotate", "reflect", "all") and
+                                             (physical.d2_active(pa.frame, fit) or physical.d2_active(pb.frame, fit))) else None)
+            ck.count("angle_limited_unknowns_compared")
+        else:
+            ck.count("angle_limit_within_1e-6_of_a_junction_angle")
     # the turning of every physical interface (the right-hand side of its pressure equation is tension x turning) is a pure
     # number: unchanged by the transformation up to the sign convention, and by a change of the length unit by 1e-4
     def turnings(ph_):
